@@ -398,7 +398,9 @@ def c06(v, tier, seed):
                          ("long", list(range(65, 2029, 1 if not q else 37)) + [2027, 2028], 1),
                          ("create", [65, 100, 255, 256, 257, 1000, 2027, 2028] if q else [65, 66, 67, 100, 127, 128, 255, 256, 257, 511, 512, 1000, 1023, 1024, 2025, 2026, 2027, 2028], 1),
                          # prior contents = the builder's own result with one header bit flipped / stale pad bytes / one payload bit flipped
-                         ("near", list(range(0, 10)) + [63, 64] if q else list(range(0, 65)), 1 if q else 2)):
+                         ("near", list(range(0, 10)) + [63, 64] if q else list(range(0, 65)), 1 if q else 2),
+                         # a message of the other kind rebuilt in place: the payload source lies inside the PDU buffer (no overlap with its destination)
+                         ("inplace", list(range(0, 9)), 1 if q else 2)):
         kinds = ["full", "brief"]
         if scn == "long": ls = [x for x in ls if x <= 2028]
         res = run_tlc("GenCan", can.cfg(scn, ls, kinds, nbg), wd)
@@ -483,6 +485,13 @@ def c08(v, tier, seed):
     vss_gen(v, wd, ex, "C08", rnd, "decode", [0, 1], vss.ALL_TYPES, 1 if q else 3)
     if not q:
         vss_gen(v, wd, ex, "C08", rnd, "decode", [0, 1], [11, 128, 130, 134, 138, 139], 1, big=True, name="GenVss/decode-max-lengths", heap="16g")
+    # the string-array value of a decoded message is unpacked with the two-call protocol (lengths first, then destinations - for some
+    # strings, all, or through one shared skip descriptor): the same small-scope enumeration as C10
+    cfg_sa = "SPECIFICATION SSpec\nCONSTANTS\n  Buf = {1}\n  MaxN = 3\n  MaxL = 2\n  Extra = FALSE\nCONSTRAINT Emit\nINVARIANT RoundTrip\nINVARIANT TotalLen\nCHECK_DEADLOCK FALSE\n"
+    res_sa = run_tlc("GenStrArr", cfg_sa, wd, heap="8g", timeout=1200)
+    v.add_tlc("GenStrArr (unpack protocol)", res_sa)
+    if not res_sa.ok: raise Infra("GenStrArr violates its own theorem:\n" + (res_sa.violation or "")[-1500:])
+    v.cov["evaluations"] += vss.sa_replay(v, ex, [x for x in res_sa.emitted if x["op"] == "unpack"])["executed"]
     vss_traces(v, wd, ex, "C08", rnd, 8000 if q else 600000, ("calcpath", "getpath", "getdata"), 6 if q else 16, "random-decodes")
     # identity on library-encoded messages: encode with the library, decode with the library, TLC validates both halves
     cmds, evs = vss.drive(rnd, 2000 if q else 120000, ("putdata",))
@@ -702,6 +711,13 @@ def c14(v, tier, seed):
     shape_sweep(v, wd, ex_n, "C14", rnd, q, "native")
     # (2) the crossed build (big-endian helper set on little-endian memory) follows GenericImpl(LE, BE)
     shape_sweep(v, wd, ex_x, "C14", rnd, q, "crossed", "LE", "BE")
+    # (2b) host independence is agreement of BOTH builds with the one specification: the native build on the array encodings
+    #      (also with the samples converted in place), the crossed build below
+    resn = run_tlc("GenVss", vss.cfg("encode", [0], [130, 131, 132, 133, 134, 135, 137, 138], 1), wd, timeout=1800)
+    v.add_tlc("GenVss/encode (native build, arrays)", resn)
+    if not resn.ok: raise Infra("VssCodec violates its own theorem:\n" + (resn.violation or "")[-1200:])
+    sub = [x for x in resn.emitted if len(x["pre"]) <= 700]
+    v.cov["evaluations"] += vss.replay(v, ex_n, sub, rnd, places=[("E", 0)], tag="[native] ")["executed"]
     groups = [ALL_VIEWS[i::3] for i in range(3)] if q else [[x] for x in ALL_VIEWS]
     for scn in ("fields", "init", "can", "vss", "strarr"):
         for gi, g in enumerate(groups if scn in ("fields", "init") else [ALL_VIEWS[:1]]):
